@@ -1,0 +1,75 @@
+//! Verification hooks. This module only exists when the crate is built with
+//! `--cfg gothenburgbitfactory_taskchampion_verif`; it is not part of the library otherwise.
+//!
+//! It provides named failpoints (used between the internal steps of the local and git
+//! servers), and access to the encryption envelope.
+
+use crate::errors::{Error, Result};
+use std::cell::RefCell;
+
+/// What a failpoint does when it is hit.
+#[derive(Clone, Copy, Debug, PartialEq, Eq)]
+pub enum FailAction {
+    /// Return an error from the enclosing function.
+    Error,
+    /// Panic with a [`ProcessStop`] payload: the enclosing call never completes, as if the
+    /// process had stopped here.
+    Stop,
+}
+
+/// The panic payload used for [`FailAction::Stop`].
+#[derive(Debug)]
+pub struct ProcessStop(pub String);
+
+#[derive(Default)]
+struct FailState {
+    /// names of the failpoints hit so far, in order
+    hits: Vec<String>,
+    /// fail at the hit with this index (counted from the last `failpoints_arm`)
+    plan: Option<(usize, FailAction)>,
+    fired: bool,
+}
+
+thread_local! {
+    static FAIL: RefCell<FailState> = RefCell::new(FailState::default());
+}
+
+/// Reset the hit counter of this thread and optionally plan one failure.
+pub fn failpoints_arm(plan: Option<(usize, FailAction)>) {
+    FAIL.with(|f| {
+        let mut f = f.borrow_mut();
+        f.hits.clear();
+        f.plan = plan;
+        f.fired = false;
+    })
+}
+
+/// The failpoints hit on this thread since the last `failpoints_arm`, and whether the planned
+/// failure fired.
+pub fn failpoints_report() -> (Vec<String>, bool) {
+    FAIL.with(|f| {
+        let f = f.borrow();
+        (f.hits.clone(), f.fired)
+    })
+}
+
+/// A named point between two internal steps.
+pub(crate) fn failpoint(name: &str) -> Result<()> {
+    let action = FAIL.with(|f| {
+        let mut f = f.borrow_mut();
+        let idx = f.hits.len();
+        f.hits.push(name.to_string());
+        match f.plan {
+            Some((i, a)) if i == idx && !f.fired => {
+                f.fired = true;
+                Some(a)
+            }
+            _ => None,
+        }
+    });
+    match action {
+        None => Ok(()),
+        Some(FailAction::Error) => Err(Error::Server(format!("injected fault at {name}"))),
+        Some(FailAction::Stop) => std::panic::panic_any(ProcessStop(name.to_string())),
+    }
+}
